@@ -278,3 +278,37 @@ func VerifC05IdentityText() {
 	verifAssert(ok2 && out2 == out1, "C05/identity-not-idempotent text="+verifItoa(int64(ti)))
 	verifCover("C05/identity-text/end")
 }
+
+// VerifC05LongCommentLines: a leading comment line longer than the buffers the pre-processor and the printer read
+// through (bufio's 4096 bytes; lengths just below, at and above one and two buffers) comes out as it went in, next
+// to ordinary comment lines, and a second pass reproduces it.
+func VerifC05LongCommentLines() {
+	lens := []int{4093, 4094, 4095, 4096, 4097, 4098, 8191, 8192, 8193, 12289}
+	l := lens[verifChoice("len", len(lens))]
+	c := verifStrN("c", 1, "az")
+	long := "#" + c + strings.Repeat("x", l-3) + "\n" // l bytes with the line feed
+	short := "# s" + verifStrN("d", 1, "az") + "\n"
+	var input string
+	switch verifChoice("where", 3) {
+	case 0:
+		input = long
+	case 1:
+		input = long + short
+	default:
+		input = short + long
+	}
+	body := "a: 1\n"
+	out1, rest1, ok1 := c05Pass(input+body, "first")
+	verifAssert(ok1, "C05/leading-content-error long-line")
+	if !ok1 {
+		return
+	}
+	verifAssert(verifEqStr(out1, input), "C05/long-comment-line-changed")
+	verifAssert(rest1 == body, "C05/leading-content-eats-document long-line")
+	out2, rest2, ok2 := c05Pass(out1+rest1, "second")
+	verifAssert(ok2, "C05/leading-content-error-second-pass long-line")
+	if ok2 {
+		verifAssert(verifEqStr(out2, out1) && rest2 == rest1, "C05/leading-content-not-idempotent long-line")
+	}
+	verifCover("C05/longline/end")
+}
